@@ -2,48 +2,44 @@
 (***************************************************************************)
 (* The error queue as a stand-alone state machine (C09).                   *)
 (* Actions: Push(e) for e in a small error universe, Pop, Count (a no-op   *)
-(* that observes).  `hist` records what a perfect unbounded observer saw,  *)
-(* bounded by MaxOps, only to state the properties; the VIEW hides it so   *)
-(* states merge on the queue content.                                      *)
+(* that observes).                                                         *)
 (*   Bounded        Len(q) <= K                                            *)
-(*   Fifo           the queue is always: the first errors that arrived     *)
-(*                  since the last time it was empty..., precisely:        *)
-(*                  q is `pend` (all un-popped errors in arrival order)    *)
-(*                  cut to K entries with the K-th replaced by -350 iff    *)
-(*                  anything was cut or overwritten                        *)
+(*   AppendWhenRoom (action) a push with room appends exactly the error    *)
 (*   OlderIntact    (action) a push never changes entries 1..Len-1         *)
 (*   OverflowAtBack (action) a push on a full queue changes only the last  *)
 (*                  entry, to -350                                         *)
+(*   FifoPop        (action) a pop removes exactly the oldest entry        *)
 (* Parameters: K, MaxOps, Variant ("spec" | "dropoldest" | "dropnew")      *)
 (***************************************************************************)
 EXTENDS ErrorQueue, MCErrorQueueParams, TLC
 
 Errs == {[n |-> -113, txt |-> <<85>>], [n |-> -200, txt |-> <<69>>], [n |-> 321, txt |-> <<100>>]}
 
-VARIABLES q, lost, nops
-vars == <<q, lost, nops>>
-\* lost: TRUE once an error arrived while the queue was full and none of the entries
-\* that were stored then ... (reset when the overflow marker is popped)
+VARIABLES q, op, nops
+vars == <<q, op, nops>>
+\* op: the operation that led to this state (so that the properties can tell a push that
+\* changed nothing from a pop)
 
 PushV(qq, e) == CASE Variant = "spec" -> QPush(qq, K, e)
                   [] Variant = "dropoldest" -> QPushDropOldest(qq, K, e)
                   [] OTHER -> QPushDropNew(qq, K, e)
 
-Init == q = <<>> /\ lost = FALSE /\ nops = 0
+Init == q = <<>> /\ op = [k |-> "init"] /\ nops = 0
 Push == /\ nops < MaxOps
-        /\ \E e \in Errs : q' = PushV(q, e) /\ lost' = (lost \/ Len(q) = K)
+        /\ \E e \in Errs : q' = PushV(q, e) /\ op' = [k |-> "push", e |-> e]
         /\ nops' = nops + 1
-Pop == /\ nops < MaxOps /\ q' = QPop(q)
-       /\ lost' = (lost /\ Len(q) > 1)          \* the marker is the last entry: popped last
+Pop == /\ nops < MaxOps /\ q' = QPop(q) /\ op' = [k |-> "pop"]
        /\ nops' = nops + 1
 Next == Push \/ Pop
 Spec == Init /\ [][Next]_vars
 
+IsPush(o) == o.k = "push"
 Bounded == Len(q) <= K
-\* the overflow marker sits at the back exactly when something was lost, and nowhere else
-MarkerOnlyAtBack == /\ \A i \in 1..(Len(q) - 1) : q[i] # QOverflow
-                    /\ (lost <=> (q # <<>> /\ q[Len(q)] = QOverflow))
-OlderIntact == [][Len(q') >= Len(q) => SubSeq(q', 1, Len(q) - 1) = SubSeq(q, 1, Len(q) - 1)]_vars
-OverflowAtBack == [][(Len(q) = K /\ Len(q') = K /\ q' # q) => q' = [q EXCEPT ![K] = QOverflow]]_vars
-FifoPop == [][Len(q') < Len(q) => q' = Tail(q)]_vars
+\* a push with room appends exactly the new error
+AppendWhenRoom == [][(IsPush(op') /\ Len(q) < K) => q' = Append(q, op'.e)]_vars
+\* a push on a full queue replaces exactly the newest entry by -350: older entries intact
+OverflowAtBack == [][(IsPush(op') /\ Len(q) = K) => q' = [q EXCEPT ![K] = QOverflow]]_vars
+OlderIntact == [][IsPush(op') => SubSeq(q', 1, Len(q) - 1) = SubSeq(q, 1, Len(q) - 1)]_vars
+\* a pop removes the oldest entry and nothing else
+FifoPop == [][op'.k = "pop" => q' = (IF q = <<>> THEN q ELSE Tail(q))]_vars
 =============================================================================
